@@ -690,3 +690,103 @@ def _is_repeat(t, title, ch, o: Outcome) -> bool:
         ln = ("call", glob("len"), (title,), ())
         return (t[2] == ch and t[3] == ln) or (t[3] == ch and t[2] == ln)
     return False
+
+
+# ----------------------------------------------------------------------
+DENY = {"strip", "lstrip", "rstrip", "replace", "lower", "upper", "title", "capitalize", "casefold", "expandtabs", "splitlines",
+        "swapcase", "translate", "zfill", "center", "ljust", "rjust", "removeprefix", "removesuffix"}
+VALUE_ATTRS = {
+    "Field": ("build_field_string", "field_string", ("field_name", "field_text")),
+    "Option": ("build_option_string", "option_string", ("name", "value")),
+    "DirectiveHeading": ("build_heading_string", "heading_string", ("title", "args")),
+    "RSTList": ("build_list_string", "list_string", ("items",)),
+}
+
+
+def _altering_calls(t, value_terms) -> List[str]:
+    """String-altering calls whose receiver / argument involves one of the value terms."""
+    out = []
+    if isinstance(t, tuple) and t:
+        if t[0] == "call" and t[1][0] == "attr" and t[1][2] in DENY and any(contains(t[1][1], v) for v in value_terms):
+            out.append(f".{t[1][2]}() on {show(t[1][1])[:40]}")
+        if t[0] == "call" and t[1][0] == "attr" and t[1][2] == "split" and not t[2] and any(contains(t[1][1], v) for v in value_terms):
+            out.append(f".split() (whitespace) on {show(t[1][1])[:40]}")
+        if t[0] == "call" and t[1][0] == "global" and t[1][1] in ("re.sub", "textwrap.dedent", "textwrap.fill", "textwrap.wrap",
+                                                                      "textwrap.shorten", "textwrap.indent") \
+                and any(contains(a, v) for a in t[2] for v in value_terms):
+            out.append(f"{t[1][1]}(...)")
+        if t[0] == "slice" and any(contains(t[1], v) for v in value_terms) and t[1][0] != "call":
+            out.append(f"slice of {show(t[1])[:40]}")
+        for x in t:
+            if isinstance(x, tuple):
+                out.extend(_altering_calls(x, value_terms))
+    return out
+
+
+def rule_values_verbatim(rep: Report, repo: Repo, rule: str) -> None:
+    rep.rule(rule, "field names/values, option names/values, list items and directive titles/arguments are serialised exactly as "
+                   "given (only str(), the indent prefix and newline re-joining are applied): no strip / replace / whitespace "
+                   "normalisation / case change on the way to the text")
+    n = 0
+    for cname, (builder, field, attrs) in VALUE_ATTRS.items():
+        ci = repo.cls(cname)
+        fn = ci.methods.get(builder)
+        if fn is None:
+            raise AnalysisError(f"anchor vanished: {cname}.{builder}")
+        vals = [attr(SELF, a) for a in attrs]
+        for o in _eval(repo, cname, fn):
+            if o.is_error_path():
+                continue
+            for e in o.effects:
+                if e[0] == "store" and e[1] == SELF and e[2] == field:
+                    n += 1
+                    txt_parts = []
+                    probs = _altering_calls(e[3], vals)
+                    for lid, lp in o.state.loops.items():
+                        for oc in lp["outcomes"]:
+                            for v_ in oc["assign"].values():
+                                probs.extend(_altering_calls(v_, vals))
+                            for e2 in oc["effects"]:
+                                for x in e2[1:]:
+                                    if isinstance(x, tuple):
+                                        probs.extend(_altering_calls(x, vals))
+                    rep.check(not probs, rule, f"{MOD}:{cname}.{builder}", show(e[3]).replace("\n", "\\n")[:100],
+                              f"{cname} alters the value it serialises ({'; '.join(sorted(set(probs)))[:120]}): values are not shown as written",
+                              witness='set(PROMPT "> ")  /  a value with leading, trailing or repeated blanks')
+        # the constructor stores the values unchanged
+        init = ci.methods.get("__init__")
+        for o in _eval(repo, cname, init, opaque_methods=(builder, "get_indents")):
+            st_ = {e[2]: e[3] for e in o.effects if e[0] == "store" and e[1] == SELF}
+            for a in attrs:
+                got = st_.get(a)
+                rep.check(got is not None and got[0] == "sym", rule, f"{MOD}:{cname}.__init__", f"self.{a} = {show(got) if got else None}",
+                          f"{cname} does not store `{a}` as given")
+    # Directive.format_arguments: arguments joined by ',' after str() only
+    d = repo.cls("Directive")
+    fa = d.methods.get("format_arguments")
+    if fa is None:
+        raise AnalysisError("anchor vanished: Directive.format_arguments")
+    ARGS = attr(SELF, "arguments")
+    for o in _eval(repo, "Directive", fa):
+        if o.kind != "return":
+            continue
+        v = o.value()
+        ok = v in (("call", ("attr", const(","), "join"), (("call", glob("map"), (glob("str"), ARGS), ()),), ()),
+                   ("call", ("attr", const(","), "join"), (ARGS,), ()))
+        if not ok and v[0] == "call" and v[1] == ("attr", const(","), "join") and len(v[2]) == 1 and v[2][0][0] == "comp":
+            comp = v[2][0]
+            var = comp[3][0][0] if len(comp[3]) == 1 else None
+            ok = var is not None and comp[3][0][1] == ARGS and not comp[3][0][2] and \
+                comp[2] in (("call", glob("str"), (("bv", var),), ()), ("bv", var))
+        n += 1
+        rep.check(ok, rule, f"{MOD}:Directive.format_arguments", show(v)[:100],
+                  "directive arguments (signatures, names) are normalised before they are written: an argument is not shown as written",
+                  witness='function(f "first  arg" [[second   arg]])  /  message(STATUS "  a   b")')
+    # Directive.__init__ keeps its varargs as they are
+    di = d.methods.get("__init__")
+    for o in _eval(repo, "Directive", di, opaque_methods=("build_heading", "get_indents")):
+        st_ = {e[2]: e[3] for e in o.effects if e[0] == "store" and e[1] == SELF}
+        got = st_.get("arguments")
+        rep.check(got is not None and got[0] == "sym", rule, f"{MOD}:Directive.__init__", f"self.arguments = {show(got) if got else None}",
+                  "Directive does not keep its arguments as given")
+    rep.floor(rule, 8, "value serialisation facts")
